@@ -33,6 +33,9 @@ class _F(fsic.fortran.FortranEngine, _Py):
     ENGINE = object()
 
 
+INSTANCE_CHECK = ['Y']          # _F.CHECK is ['C', 'Y']
+
+
 def S(x):
     return z3.StringVal(x)
 
@@ -50,7 +53,7 @@ class FortranSolveT(FunctionContract):
         env = make_model(interp, _F)
         obj = env.obj
         obj.fields['names'] = list(_F.NAMES)
-        obj.fields['check'] = list(_F.CHECK)
+        obj.fields['check'] = list(INSTANCE_CHECK)      # the instance's own list (it may have been edited): not the class-level CHECK
         obj.fields['endogenous'] = list(_F.ENDOGENOUS)
         obj.known_vars = tuple(_F.NAMES)
         e = {'env': env, 'engine_calls': [], 'values_set': []}
@@ -121,7 +124,7 @@ class FortranSolveT(FunctionContract):
             for k_, v_ in codes.items():
                 want_code = z3.If(E == S(k_), z3.IntVal(v_), want_code)
             rows = a[6] if len(a) > 6 else None
-            ok_rows = isinstance(rows, list) and rows == [_F.NAMES.index(x) + 1 for x in _F.CHECK] and all(1 <= r <= len(_F.NAMES) for r in rows)
+            ok_rows = isinstance(rows, list) and rows == [_F.NAMES.index(x) + 1 for x in INSTANCE_CHECK] and all(1 <= r <= len(_F.NAMES) for r in rows)
             ctx.prove(z3.BoolVal(len(calls) == 1 and len(a) == 8 and a[0] is e['values_token']), 'engine_called_once_with_the_model_values_as_float', 'pre-at-call')
             ctx.prove(V.to_int_term(a[1]) == e['t'] + 1, 'period_passed_one_based', 'pre-at-call')
             ctx.prove(z3.And(V.to_int_term(a[2]) == e['min_iter'], V.to_int_term(a[3]) == e['max_iter'], V.z3_of(a[4]) == e['tol'], V.to_int_term(a[5]) == e['offset']),
@@ -236,7 +239,7 @@ class FortranSolve(FunctionContract):
         ctx.assume(z3.And(env.n == 4, env.lags == 1, env.leads == 1))
         ctx.assume(z3.Distinct(*[z3.Select(env.span.arr, p) for p in range(4)]))      # period labels are pairwise distinct
         obj.fields['names'] = list(_F.NAMES)
-        obj.fields['check'] = list(_F.CHECK)
+        obj.fields['check'] = list(INSTANCE_CHECK)      # the instance's own list (it may have been edited): not the class-level CHECK
         obj.fields['endogenous'] = list(_F.ENDOGENOUS)
         obj.known_vars = tuple(_F.NAMES)
         e = {'env': env, 'engine_calls': [], 'values_set': [], 'scenario': scenario}
@@ -318,7 +321,7 @@ class FortranSolve(FunctionContract):
         ctx.prove(z3.And(V.to_int_term(a[2]) == e['min_iter'], V.to_int_term(a[3]) == e['max_iter'], V.z3_of(a[4]) == e['tol'], V.to_int_term(a[5]) == e['offset']),
                   'iteration_limits_tolerance_and_offset_passed_unchanged', 'pre-at-call')
         rows = a[6]
-        ctx.prove(z3.BoolVal(isinstance(rows, list) and rows == [_F.NAMES.index(x) + 1 for x in _F.CHECK]), 'check_variable_rows_are_one_based_positions_in_the_variable_order', 'pre-at-call',
+        ctx.prove(z3.BoolVal(isinstance(rows, list) and rows == [_F.NAMES.index(x) + 1 for x in INSTANCE_CHECK]), 'check_variable_rows_are_one_based_positions_in_the_variable_order', 'pre-at-call',
                   note=str(rows))
         fcode = z3.If(Fl == S('raise'), z3.IntVal(fsic.fortran.FortranEngine._FAILURE_OPTIONS['raise']), z3.IntVal(fsic.fortran.FortranEngine._FAILURE_OPTIONS['ignore']))
         ecode = z3.IntVal(-99)
